@@ -117,7 +117,9 @@ def run_case(cs, ctx):
     case['second_run_into_existing_directory'] = rerun
     # transient files inside the output directory (write-then-rename) are the implementation's business: the
     # final directory listing is checked above; what must not happen is a write outside the requested directory
-    root = os.path.dirname(outdir) + os.sep
+    top = os.path.join(ctx.workdir, 'gen_c08')
+    allowed.add(top)
+    root = top + os.sep
     bad = [e for e in res['fs'] if e[0] != 'open_r' and e[1] not in allowed and not str(e[1]).startswith(root)]
     ctx.cnt('fs_events_audited', len(res['fs']))
     if bad:
